@@ -771,15 +771,15 @@ def _execute(trace, res, prop, program, meta, ops, solver, fs):
         if not faulted and not reuse:
             if heat_stored:
                 twin, tout = twin_run(kw, mode_override="sequential")
+                circ = ""
+                if opts_model.get("nonlinear_method") == "automatic" and opts_model.get("alpha") != 1:
+                    circ = "@adaptive-damping-with-alpha<1"
                 if tout == "ok" and outcome == "ok":
                     d = [x for x in netmodel.results_equal_bitwise(live.net, twin) if x.split(".")[-1] in THERMAL_COLS]
                     for x in d:
-                        res.violate("C12", "C12/heat-from-stored-differs:%s" % _strip(x), x, oi)
+                        res.violate("C12", "C12/heat-from-stored-differs:%s%s" % (_strip(x), circ), x, oi)
                     res.count("probe:heat-from-stored-compared")
                 elif tout != outcome:
-                    circ = ""
-                    if opts_model.get("nonlinear_method") == "automatic" and opts_model.get("alpha") != 1:
-                        circ = "@adaptive-damping-with-alpha<1"
                     res.violate("C12", "C12/heat-from-stored-differs:outcome%s" % circ, "%s vs twin %s" % (outcome, tout), oi)
             else:
                 twin, tout = twin_run(kw)
